@@ -7,9 +7,22 @@ use super::*;
 const REF_MULTIPLE: u64 = 6364136223846793005;
 const REF_PI: [u64; 4] = [0x243f_6a88_85a3_08d3, 0x1319_8a2e_0370_7344, 0xa409_3822_299f_31d0, 0x082e_fa98_ec4e_6c89];
 
-fn ref_fold(s: u64, by: u64) -> u64 {
+fn ref_fold_exact(s: u64, by: u64) -> u64 {
     let r = (s as u128).wrapping_mul(by as u128);
     (r as u64) ^ ((r >> 64) as u64)
+}
+
+/// Stand-in for `folded_multiply` used on BOTH sides of the dataflow harnesses (probe P26: chains of symbolic
+/// 64x64->128 multiplications do not finish in CBMC).  Multiplication-free, not commutative, every input bit reaches
+/// the output: the harnesses then decide that the code under test feeds the same operands, in the same order, to
+/// `folded_multiply` and combines the results in the same way as the reference.  `folded_multiply` itself is pinned
+/// by `c17_folded_multiply_def`.
+pub(crate) fn mix_stub(s: u64, by: u64) -> u64 {
+    (s.rotate_left(13) ^ by).wrapping_add(s & 0x5555_5555_5555_5555) ^ by.rotate_left(29) ^ (s >> 3)
+}
+
+fn ref_fold(s: u64, by: u64) -> u64 {
+    mix_stub(s, by)
 }
 
 fn le64(b: &[u8]) -> u64 {
@@ -83,6 +96,7 @@ fn same_as_pinned<const N: usize>() {
 /// given length (lengths chosen on both sides of the 8- and 16-byte thresholds, incl. > 16 and two full blocks).
 #[kani::proof]
 #[kani::unwind(4)]
+#[kani::stub(crate::filter::ahash::operations::folded_multiply, mix_stub)]
 fn c17_hash_pinned_len1_4_8() {
     same_as_pinned::<1>();
     same_as_pinned::<4>();
@@ -91,6 +105,7 @@ fn c17_hash_pinned_len1_4_8() {
 
 #[kani::proof]
 #[kani::unwind(4)]
+#[kani::stub(crate::filter::ahash::operations::folded_multiply, mix_stub)]
 fn c17_hash_pinned_len9_16() {
     same_as_pinned::<9>();
     same_as_pinned::<16>();
@@ -98,12 +113,32 @@ fn c17_hash_pinned_len9_16() {
 
 #[kani::proof]
 #[kani::unwind(4)]
+#[kani::stub(crate::filter::ahash::operations::folded_multiply, mix_stub)]
 fn c17_hash_pinned_len17() {
     same_as_pinned::<17>();
 }
 
 #[kani::proof]
 #[kani::unwind(5)]
+#[kani::stub(crate::filter::ahash::operations::folded_multiply, mix_stub)]
 fn c17_hash_pinned_len33() {
     same_as_pinned::<33>();
+}
+
+/// C17/C10: `folded_multiply` is the xor of the two halves of the full 128-bit product.
+#[kani::proof]
+fn c17_folded_multiply_def() {
+    let a: u64 = kani::any();
+    let b: u64 = kani::any();
+    assert!(folded_multiply(a, b) == ref_fold_exact(a, b));
+}
+
+/// the stand-in is not commutative and depends on both operands (vacuity guard for the stubbed harnesses)
+#[kani::proof]
+fn c17_mix_stub_discriminates() {
+    let a: u64 = kani::any();
+    let b: u64 = kani::any();
+    kani::cover!(mix_stub(a, b) != mix_stub(b, a), "not commutative");
+    kani::cover!(mix_stub(a, b) != mix_stub(a, b ^ 1), "depends on by");
+    kani::cover!(mix_stub(a, b) != mix_stub(a ^ (1 << 63), b), "depends on s");
 }
